@@ -897,6 +897,50 @@ def run_property(run, prop, tier, seed, max_jobs=None):
                 "non-trivial = model with >= 2 blocks (potentials + elements); distinct by (model, route)")
 
 
+def calibrate_eeam(run):
+    """Ground truth for the DL_POLY EEAM consumer model: the repository's own DL_POLY-dependent test
+    (tests/test_dlpoly_writeTABEAM.py::testDensityFunctions, skipped here for lack of a DL_POLY binary) records the energy
+    DL_POLY computed for a three-atom cluster (Ar at the origin, B at 2.5 and B at 5.0, B-B 5.590169 apart) with embedding
+    F(rho) = rho.  The same file is written by the real writer, read with the consumer model ('dens a b' = density at an a site
+    from a b neighbour) and the cluster energy recomputed: it must be the recorded constant."""
+    import math
+
+    def embed(rho):
+        return rho
+    dens = {("Ar", "Ar"): lambda r: 1.0, ("B", "Ar"): lambda r: 0.567 * r, ("Ar", "B"): lambda r: 0.11 * r, ("B", "B"): lambda r: 0.98 * r}
+    zero = lambda r: 0.0
+    pots = [Potential("Ar", "Ar", zero), Potential("Ar", "B", zero), Potential("B", "B", zero)]
+    eams = [EAMPotential("Ar", 18, 39.948, embed, {"Ar": dens[("Ar", "Ar")], "B": dens[("Ar", "B")]}),
+            EAMPotential("B", 5, 10.811, embed, {"Ar": dens[("B", "Ar")], "B": dens[("B", "B")]})]
+    sink = io.StringIO()
+    P.writeTABEAMFinnisSinclair(1000, 0.1, 1000, 0.01, eams, pots, sink)
+    t = formats.parse_tabeam(sink.getvalue())
+    blocks = {(b["kw"], tuple(b["who"])): b for b in t["blocks"]}
+
+    def read(kw, who, x):
+        b = blocks[(kw, who)]
+        step = float(b["end"]) / (b["n"] - 1)
+        k = x / step
+        i = int(math.floor(k))
+        lo, hi = float(b["vals"][i]), float(b["vals"][min(i + 1, b["n"] - 1)])
+        return lo + (hi - lo) * (k - i)
+    atoms = [("Ar", (0.0, 0.0)), ("B", (2.5, 0.0)), ("B", (0.0, 5.0))]
+    energy = 0.0
+    for i, (si, pi) in enumerate(atoms):
+        rho = 0.0
+        for j, (sj, pj) in enumerate(atoms):
+            if i != j:
+                rho += read("dens", (si, sj), math.hypot(pi[0] - pj[0], pi[1] - pj[1]))     # density at an si site from an sj neighbour
+        energy += read("embe", (si,), rho)
+    expect = 0.11 * 5 + 0.11 * 2.5 + 0.567 * 5.0 + 0.98 * 5.590169 + 0.567 * 2.5 + 0.98 * 5.590169
+    run.evaluations += 1
+    run.notes["eeam_ground_truth"] = dict(recomputed=energy, recorded_by_dl_poly_test=expect)
+    if abs(energy - expect) > 1e-3:
+        run.violation(dict(engine="layout", target="DL_POLY_EAM_fs", clause="dl_poly-ground-truth", route="func"),
+                      "DL_POLY_EAM_fs: cluster energy recomputed from the written TABEAM with the consumer's rules is %.6f; DL_POLY computed %.6f for this model "
+                      "(tests/test_dlpoly_writeTABEAM.py::testDensityFunctions)" % (energy, expect), dict(energy=energy, expect=expect))
+
+
 def main(prop, tier, seed):
     from lib.harness import Run
     run = Run(prop, tier, seed)
@@ -910,6 +954,8 @@ def main(prop, tier, seed):
         if not run.machinery_errors:
             from engines import layout_trace
             layout_trace.validate(run, prop, tier, seed)
+        if prop in ("C04", "C05") and not run.machinery_errors:
+            calibrate_eeam(run)
     except tlc.TLCError as e:
         run.machinery(str(e))
     return run.finish()
